@@ -21,7 +21,10 @@ RULE = (
     "keyword/omitted choice, surplus keywords z1,z2 and names equal to positional-only parameters with **kwargs. "
     "thorough enumerates this space completely (sharded) and adds Hypothesis-drawn larger signatures; quick samples "
     "it with Hypothesis. non-trivial = the shape uses a default, a keyword-only or positional-only parameter, or "
-    "surplus arguments; distinct = hash of the whole case."
+    "surplus arguments; distinct = hash of the whole case. Plus two-group cases: inherited and own precondition group of "
+    "2 conditions each, every condition in {holds, violated, asks for a name the call does not provide} (3^4 - 2^4 "
+    "assignments x sync/async): the walk over the groups in C16's order ends in a TypeError naming the name as soon as "
+    "it reaches such a condition."
 )
 ASSUMPTIONS = [
     "variadic parameter names (args/kwargs) are never requested by a contract (excluded by the statement)",
@@ -435,7 +438,99 @@ KNOWN = {
 }
 
 
+def group_missing_cases(ctx, only=None):
+    """A condition asking for a name the call does not provide, in a hierarchy with TWO precondition groups (the
+    inherited group and the overriding method's own group, which is tried after it - C16): whenever the walk over the
+    groups reaches that condition the call fails with a TypeError naming the missing name - it is neither taken for a
+    group that does not hold nor skipped. Enumerated: 2 conditions per group x state {holds, violated, asks for a missing
+    name} for each of the four x sync/async x the name is missing for every call / supplied by some calls through
+    **kwargs."""
+    import itertools
+    import icontract
+    from vf.progmodel.run import drive
+
+    STATES = ("holds", "violated", "missing")
+    for is_async, via_kwargs in itertools.product((False, True), (False, True)):
+        for states in itertools.product(STATES, repeat=4):
+            if "missing" not in states:
+                continue
+            key = ["async" if is_async else "sync", "kwargs" if via_kwargs else "never", list(states)]
+            if only is not None and only != key:
+                continue
+            log = []
+
+            def mk(i, state):
+                ns = {"log": log}
+                extra = ", absent_%d" % i if state == "missing" else ""
+                exec("def cond_%d(x%s):\n    log.append(%d)\n    return %r" % (i, extra, i, state != "violated"), ns)
+                return ns["cond_%d" % i]
+
+            conds = [mk(i, st_) for i, st_ in enumerate(states)]
+            ns = {"icontract": icontract, "c": conds, "log": log}
+            A = "async " if is_async else ""
+            exec("\n".join([
+                "class Base(icontract.DBC):",
+                "    @icontract.require(c[1])",
+                "    @icontract.require(c[0])",
+                "    %sdef m(self, x, **kw):" % A,
+                "        return x",
+                "class Sub(Base):",
+                "    @icontract.require(c[3])",
+                "    @icontract.require(c[2])",
+                "    %sdef m(self, x, **kw):" % A,
+                "        log.append('body')",
+                "        return x",
+            ]), ns)
+            # the order of C16: the inherited group first, each group from the decorator nearest the function outwards,
+            # a group is left at its first falsy condition, the walk ends at the first group that holds
+            want_log, want = [], None
+            # "kwargs": the call supplies the first of the missing names through **kwargs (that condition then holds)
+            supplied = {"absent_%d" % states.index("missing"): 0} if via_kwargs else {}
+            for group in ((0, 1), (2, 3)):
+                held = True
+                for i in group:
+                    want_log.append(i)
+                    if states[i] == "missing" and want is None and not (via_kwargs and ("absent_%d" % i) in supplied):
+                        want = "TypeError:absent_%d" % i
+                        break
+                    if states[i] == "violated":
+                        held = False
+                        break
+                if want is not None or held:
+                    break
+            if want is None:
+                want = "accepted" if held else "rejected"
+            if want.startswith("TypeError"):
+                want_log = want_log[:-1]
+            elif want == "accepted":
+                want_log.append("body")
+            try:
+                r = ns["Sub"]().m(1, **supplied)
+                if is_async:
+                    r = drive(r)
+                got = "accepted"
+            except icontract.ViolationError:
+                got = "rejected"
+            except TypeError as e:
+                names = [n for n in ("absent_%d" % i for i in range(4)) if repr(n) in str(e) or n in str(e)]
+                got = "TypeError:" + ",".join(names) if names else "TypeError naming nothing: %s" % e
+            except BaseException as e:  # noqa
+                got = "%s: %s" % (type(e).__name__, e)
+            ctx.case(["group-missing"] + key, True, sample={"directed": "two precondition groups, conditions (inherited: 2, own: 2) are %r" % (states,),
+                                                            "expected": want})
+            ctx.count("directed:group-missing")
+            if got != want or [e for e in log] != want_log:
+                ctx.fail("group-missing|%s|%s" % (key[0], want.split(":")[0]), {"group_missing_case": key},
+                         "conditions of the inherited group %r and of the own group %r (nearest the function first): expected %s "
+                         "evaluating %r, got %s evaluating %r" % (states[:2], states[2:], want, want_log, got, log))
+
+
 def replay(ctx, case):
+    if case.get("group_missing_case"):
+        before = ctx.evaluations
+        group_missing_cases(ctx, only=case["group_missing_case"])
+        ctx.evaluations = before + 1
+        return
     c = {k: case[k] for k in ("sig", "shape", "req", "mode")}
     c["dreq"] = case.get("dreq")
     for k in ("flavour", "reenter", "self_kw", "none_args", "cb_kwonly"):
@@ -447,6 +542,9 @@ def replay(ctx, case):
 
 def run(ctx, tier, seed, shard, nshards):
     from hypothesis import given, strategies as st
+
+    if shard == 0:
+        group_missing_cases(ctx)
 
     modes = ("A", "B", "C")
 
